@@ -2,7 +2,7 @@
 
 Ballistic particles (leapfrog, no gravity force needed for the bookkeeping) from an alphabet of positions on
 and near box faces / cell borders and velocities crossing up to 2.3 boxes per step, under
-boundary {open, periodic, shear} x root layouts {1x1x1, 2x1x1, 2x2x1} x module {tree gravity, tree collisions, none},
+boundary {open, periodic, shear} x root layouts {1x1x1, 2x1x1, 2x2x1, 1x3x1, 1x2x2} x module {tree gravity, tree collisions, none},
 through every history of <= depth operations {step, lazy remove, add, move_to_com}.  After every operation:
 boundary oracle (inside the box, N, whole-box displacements, shear offsets; open: exactly the outside ones gone)
 and a read-only walk of the tree (each particle in exactly one leaf that contains it, back pointers, counters,
@@ -30,7 +30,7 @@ Cell._fields_ = [("x", ctypes.c_double), ("y", ctypes.c_double), ("z", ctypes.c_
                  ("m", ctypes.c_double), ("mx", ctypes.c_double), ("my", ctypes.c_double), ("mz", ctypes.c_double),
                  ("oct", ctypes.c_void_p * 8), ("pt", ctypes.c_int), ("remote", ctypes.c_int)]
 
-LAYOUTS = {"1x1x1": (1, 1, 1), "2x1x1": (2, 1, 1), "2x2x1": (2, 2, 1)}
+LAYOUTS = {"1x1x1": (1, 1, 1), "2x1x1": (2, 1, 1), "2x2x1": (2, 2, 1), "1x3x1": (1, 3, 1), "1x2x2": (1, 2, 2)}     # incl. N_root_y > N_root_x and N_root_z > 1
 
 
 def alphabet(layout):
@@ -49,6 +49,9 @@ def alphabet(layout):
         v2 = Vs[(i * 5 + 2) % len(Vs)]
         if i % 2 == 0:
             out.append((p, v2))
+    # several box heights per step through the lower and through the upper vertical face
+    out.append(((0.2, -0.3, -Lz / 2 + d), (0.1, 0.2, -3.4 * Lz)))
+    out.append(((-0.2, 0.3, Lz / 2 - d), (-0.2, 0.1, 2.3 * Lz)))
     return out, (Lx, Ly, Lz)
 
 
@@ -372,7 +375,7 @@ def run(ctx):
         "states": states, "transitions": states, "traces_validated_against_impl": len(tasks) - refused,
         "samples": [{"cfg": tasks[0][0], "history": tasks[0][1]}, {"cfg": tasks[-1][0], "history": tasks[-1][1]}],
         "cases": len(tasks), "histories_per_config": len(H), "max_depth": depth, "particle_alphabet": nalpha, "exhaustive": True,
-        "rule": "boundary {open, periodic, shear} x root layout {1x1x1, 2x1x1, 2x2x1} x module {tree gravity, tree collisions, none} x every 1-2 (quick: plus a fifth of the 3-) subset of a 15-entry particle alphabet "
+        "rule": "boundary {open, periodic, shear} x root layout {1x1x1, 2x1x1, 2x2x1, 1x3x1, 1x2x2} x module {tree gravity, tree collisions, none} x every 1-2 (quick: plus a fifth of the 3-) subset of a 17-entry particle alphabet "
                 "(positions on faces / next to faces and cell borders, velocities up to 2.3 boxes per step) x every history over {step, lazy remove, add, move_to_com} up to max_depth containing a step or move_to_com",
     }
     return ctx.finish(LEVEL, cov, assumptions=[
